@@ -49,7 +49,14 @@ def streams(rng, tier):
         ops3.append(f"children {gen.hx(h)} {min(15, res + rng.randrange(0, 4))}")
         ops3.append(f"childrenS {gen.hx(h)} {min(15, res + rng.randrange(0, 4))}")
         ops3.append(f"ispent {gen.hx(h)}")
-    return [("children", ops), ("parent-size-center", ops2), ("children-malformed", ops3)]
+    # the first cells of the iterator at EVERY depth 0..15 (full enumeration is impossible beyond depth ~7)
+    ops4 = []
+    for h in cells:
+        res = (h >> 52) & 15
+        for c in range(res, 16):
+            if c - res > maxdepth:
+                ops4.append(f"iterhead {gen.hx(h)} {c} {rng.choice([3, 9, 60, 400])}")
+    return [("children", ops), ("parent-size-center", ops2), ("children-malformed", ops3), ("iterator-prefix", ops4)]
 
 
 def evaluate(ctx, rng, tier, focus, budget, broken):
@@ -75,6 +82,10 @@ def evaluate(ctx, rng, tier, focus, budget, broken):
             ops.append(f"parent {gen.hx(h)} {r}"); meta.append(("parent", h, r))
             ops.append(f"csize {gen.hx(h)} {r}"); meta.append(("csizeE", h, r))
             ops.append(f"center {gen.hx(h)} {r}"); meta.append(("centerE", h, r))
+    for h in cells:
+        res = (h >> 52) & 15
+        for c in range(res + maxdepth + 1, 16):
+            ops.append(f"iterhead {gen.hx(h)} {c} 60"); meta.append(("iterhead", h, c))
     out = ctx.c(ops, tag="eval")
     nchild = 0
     for o, m, a in zip(ops, meta, out):
@@ -87,6 +98,35 @@ def evaluate(ctx, rng, tier, focus, budget, broken):
             if got != exp:
                 viol_.append(viol("cellToChildren differs from the digit-tree enumeration (count/order/validity/parent)",
                                   o, f"{len(exp)} cells, first {gen.hx(exp[0])}", a[:200]))
+        elif kind == "iterhead":
+            # first 60 children at a depth that cannot be enumerated: the first 60 digit strings of the parent
+            pent = gen.is_pentagon(h)
+            m = c - res
+            exp = []
+            for i in range(60):
+                if pent:
+                    # positions 0, 1.. of a pentagon: 0 -> all zero; i>=1 -> skip the deleted sub-sequence
+                    ds, idx, inpent = [], i, True
+                    for lvl in range(1, m + 1):
+                        w = 7 ** (m - lvl)
+                        if inpent:
+                            pw = 1 + 5 * (w - 1) // 6
+                            if idx < pw:
+                                ds.append(0)
+                            else:
+                                idx -= pw
+                                ds.append(idx // w + 2); idx %= w; inpent = False
+                        else:
+                            ds.append(idx // w); idx %= w
+                else:
+                    ds = [(i // 7 ** (m - lvl)) % 7 for lvl in range(1, m + 1)]
+                _, hbc, hds = gen.fields(h)
+                exp.append(gen.mkcell(c, hbc, hds[:res] + ds))
+            got = parse_hs(a) if ok(a) else None
+            if got != exp:
+                bad = next((j for j in range(60) if got is None or j >= len(got) or got[j] != exp[j]), 0)
+                viol_.append(viol("the child iterator (cellToChildren) differs from the digit-tree enumeration at a deep level",
+                                  o, f"cell {bad} = {gen.hx(exp[bad])}", a[:200]))
         elif kind == "csize":
             exp = gen.children_size(h, c)
             if a != f"ok {exp}":
